@@ -593,11 +593,14 @@ def _isinstance(ex, st, args, kw, node):
     from . import objects
     v, c = args
     classes = list(c) if isinstance(c, (Tup, tuple)) else [c]
-    if not all(isinstance(x, ClsV) for x in classes):
+    builtin_types = ("dict", "list", "str", "int", "float", "tuple", "bool")        # modelled by their constructor functions
+    if not all(isinstance(x, ClsV) or (isinstance(x, FuncV) and x.name in builtin_types) for x in classes):
         raise Undecided("isinstance with a class that is not modelled")
     names = {x.name for x in classes}
     if isinstance(v, NoneV):
         return z3.BoolVal(False)
+    if isinstance(v, ARef):
+        return z3.BoolVal("ndarray" in names)
     if isinstance(v, ORef):
         return z3.BoolVal(st.heap[v.oid].cls in names)
     if isinstance(v, objects.SObj):
@@ -674,7 +677,9 @@ def _arr_tolist(ex, st, args, kw, node):
     d = ex.arr(st, args[0])
     if d.rank != 1:
         raise Undecided("tolist() of a 2-D array")
-    return ex.alloc_arr(st, d.shape, d.data, d.elem, "fresh", tag="tolist")
+    r = ex.alloc_arr(st, d.shape, d.data, d.elem, "fresh", tag="tolist")
+    st.heap[r.sid].pylist = True
+    return r
 
 
 def _arr_copy(ex, st, args, kw, node):
@@ -754,7 +759,37 @@ def _str_join(ex, st, args, kw, node):
     return StrV("<joined>")
 
 
-DICT_METHODS = {"get": _dict_get, "keys": _dict_keys, "pop": _dict_pop, "copy": _dict_copy}
+def deep_copy(ex, st, v):
+    """copy.deepcopy of a value made of numbers, strings, None, arrays, lists, tuples and dictionaries with constant keys: equal content, fresh storage at
+    every level (A-DEEPCOPY)"""
+    if isinstance(v, ARef):
+        d = ex.arr(st, v)
+        r = ex.alloc_arr(st, d.shape, d.data, d.elem, "fresh", tag="deepcopy")
+        st.heap[r.sid].pylist = d.pylist
+        return r
+    if isinstance(v, LRef):
+        return ex.alloc_list(st, [deep_copy(ex, st, x) for x in st.heap[v.sid].items])
+    if isinstance(v, DictV):
+        return DictV({k: deep_copy(ex, st, x) for k, x in v.items.items()})
+    if isinstance(v, Tup):
+        return Tup(deep_copy(ex, st, x) for x in v)
+    if isinstance(v, (NoneV, StrV)) or is_z3(lit(v)):
+        return v
+    raise Undecided(f"deepcopy of a {type(v).__name__}")
+
+
+DEEPCOPY = FuncV(lambda ex, st, args, kw, node: deep_copy(ex, st, args[0]), "deepcopy")
+
+
+def _dict_items(ex, st, args, kw, node):
+    return Tup(Tup((StrV(k), v)) for k, v in args[0].items.items())       # (key, value) pairs in insertion order
+
+
+def _dict_values(ex, st, args, kw, node):
+    return Tup(v for v in args[0].items.values())
+
+
+DICT_METHODS = {"get": _dict_get, "keys": _dict_keys, "pop": _dict_pop, "copy": _dict_copy, "items": _dict_items, "values": _dict_values}
 STR_METHODS = {"lower": _str_lower, "endswith": _str_endswith, "join": _str_join, "startswith": _str_startswith, "split": _str_split}
 
 # A-NAN: NaN is a distinguished real constant; only storing it and testing for it (isnan) are meaningful - a contract that lets it reach
